@@ -83,7 +83,17 @@ impl Default for Limits {
 }
 
 pub fn new_context(l: Limits) -> Context {
-    let mut ctx = Context::builder().instructions_remaining(l.instructions).build().expect("context");
+    let ctx = Context::builder().instructions_remaining(l.instructions).build().expect("context");
+    setup_context(ctx, l)
+}
+
+/// a context whose jobs go to a caller-supplied executor
+pub fn new_context_with_executor<Q: boa_engine::job::JobExecutor + 'static>(l: Limits, exec: std::rc::Rc<Q>) -> Context {
+    let ctx = Context::builder().instructions_remaining(l.instructions).job_executor(exec).build().expect("context");
+    setup_context(ctx, l)
+}
+
+fn setup_context(mut ctx: Context, l: Limits) -> Context {
     if let Some(v) = l.loop_iter { ctx.runtime_limits_mut().set_loop_iteration_limit(v); }
     if let Some(v) = l.recursion { ctx.runtime_limits_mut().set_recursion_limit(v); }
     if let Some(v) = l.stack { ctx.runtime_limits_mut().set_stack_size_limit(v); }
